@@ -76,6 +76,7 @@ type frame struct {
 	lvs       map[ssa.Value]*LV
 	depth     int
 	cancellable  bool
+	lockBal      bool
 	cancelFields []string
 	contract  *FuncC
 	top       bool
